@@ -889,6 +889,21 @@ func (un *Unit) evCall(e *ECall, sc *Scope) SV {
 			sc.failed = o.failed
 		}
 		return v
+	case "acq":
+		// acq(e): e evaluated in the state right after the most recent lock acquisition on this path
+		if !need(1) {
+			return boolSV("false")
+		}
+		if un.lastAcquireSnap == nil {
+			return sc.fail("acq(): no lock acquisition")
+		}
+		o := sc.child()
+		o.cur = un.lastAcquireSnap
+		v := un.ev(e.Args[0], o)
+		if o.failed != nil && sc.failed == nil {
+			sc.failed = o.failed
+		}
+		return v
 	case "len":
 		if !need(1) {
 			return intSV("0")
@@ -1030,6 +1045,47 @@ func (un *Unit) evCall(e *ECall, sc *Scope) SV {
 			}
 		}
 		return sc.fail("no recorded call %s", key)
+	case "mk":
+		// mk(T, f1, f2, ...): a value of struct type T with the given field values (positional)
+		if len(e.Args) < 1 {
+			return sc.fail("mk(T, fields...)")
+		}
+		t, srt, err := sc.resolveType(exprText(e.Args[0]))
+		if err != nil || t == nil {
+			return sc.fail("mk: %v", err)
+		}
+		stt, ok := t.Underlying().(*types.Struct)
+		if !ok || stt.NumFields() != len(e.Args)-1 {
+			return sc.fail("mk(%s): wrong number of fields", exprText(e.Args[0]))
+		}
+		var fs []string
+		for i := 1; i < len(e.Args); i++ {
+			fs = append(fs, un.ev(e.Args[i], sc).t)
+		}
+		if len(fs) == 0 {
+			return SV{t: "mk_" + srt, typ: t}
+		}
+		return SV{t: "(mk_" + srt + " " + strings.Join(fs, " ") + ")", typ: t}
+	case "retis":
+		// retis(callee, k, i, x): the k-th call to callee happened on this path and its i-th result is x
+		if len(e.Args) != 4 {
+			return sc.fail("retis(callee, k, i, x)")
+		}
+		callee := exprText(e.Args[0])
+		k, _ := strconv.Atoi(exprText(e.Args[1]))
+		i, _ := strconv.Atoi(exprText(e.Args[2]))
+		key := fmt.Sprintf("%s#%d", callee, k)
+		x := un.ev(e.Args[3], sc)
+		if sc.fr != nil {
+			if rs, ok := sc.fr.callRes[key]; ok && i < len(rs) {
+				g := rs[i].callGuard
+				if g == "" {
+					g = "true"
+				}
+				return boolSV(and(g, eq(rs[i].t, x.t)))
+			}
+		}
+		return boolSV("false") // no such call in this function: it did not happen
 	case "called":
 		callee := exprText(e.Args[0])
 		n := 0
@@ -1240,6 +1296,10 @@ func (un *Unit) applyContract(fr *Frame, st *State, fc *FuncContract, names []st
 	if !fc.Pure {
 		un.bumpNext(st)
 		un.havocVolatile(st)
+		// time passes inside the callee: the clock it leaves behind is not earlier than the one it found
+		oldClock := un.clock(st)
+		newClock := un.havocComp(st, "G_clock")
+		un.addFact("(>= " + newClock + " " + oldClock + ")")
 	}
 	for _, cl := range fc.Clauses {
 		if cl.Kind == "modifies" && !mentionsResult(cl.Text) {
@@ -1300,8 +1360,8 @@ func (un *Unit) applyContract(fr *Frame, st *State, fc *FuncContract, names []st
 		if cl.Kind != "ensures" {
 			continue
 		}
-		if strings.Contains(cl.Text, "ret(") {
-			continue // speaks about the callee's internal calls: checked there, meaningless to a caller
+		if strings.Contains(cl.Text, "ret(") || strings.Contains(cl.Text, "retis(") || strings.Contains(cl.Text, "acq(") {
+			continue // speaks about the callee's internal calls / critical sections: checked there, meaningless to a caller
 		}
 		t, _ := un.evalSpec(cl.E, post)
 		un.assume(st, t)
@@ -1359,7 +1419,11 @@ func (un *Unit) havocLvalue(text string, sc *Scope, st *State) {
 			return
 		}
 		c := un.comp("G_"+text, s, "ghost")
-		un.havocComp(st, c)
+		before := un.get(st, c)
+		after := un.havocComp(st, c)
+		if g.Counter {
+			un.addFact("(>= " + after + " " + before + ")")
+		}
 		return
 	}
 	if text == "clock" {
